@@ -154,4 +154,42 @@ void h_builder_init(void)
 	V_WITNESS();
 }
 
-V_MAIN(V_E(h_block_roundtrip), V_E(h_block_seek), V_E(h_builder_init))
+/* decode_entry() alone, for EVERY triple of 32-bit lengths: the header is laid out by a reference
+ * LEB128 encoder (independent of varint.c), followed by exactly non_shared + value_length bytes
+ * (+ 0..2 spare); the real decoder must return the three lengths and the position right after
+ * the header.  The entry's payload is never touched, so the buffer has a symbolic size. */
+static size_t ref_put_varint32(uint8_t *o, uint32_t v)
+{
+	size_t n = 0;
+	for (int i = 0; i < 5; i++) {
+		uint8_t b = v & 0x7f;
+		v >>= 7;
+		if (v) { o[n++] = b | 0x80; } else { o[n++] = b; break; }
+	}
+	return n;
+}
+void h_decode_entry(void)
+{
+	verif_stop_is_violation = 1;
+	uint32_t LS = vn_u32(), LN = vn_u32(), LV = vn_u32();
+	uint8_t hdr[15];
+	size_t h = 0;
+	h += ref_put_varint32(hdr + h, LS);
+	h += ref_put_varint32(hdr + h, LN);
+	h += ref_put_varint32(hdr + h, LV);
+	size_t total = h + (size_t)LN + (size_t)LV + (size_t)vn_range(0, 2);
+	uint8_t *buf = malloc(total);
+	V_ASSUME(buf != NULL);
+	for (size_t i = 0; i < 15; i++)
+		if (i < h)
+			buf[i] = hdr[i];
+	uint32_t s = 0, n = 0, v = 0;
+	uint8_t *q = decode_entry(buf, buf + total, &s, &n, &v);
+	V_ASSERT(q != NULL, "C01: a well-formed entry header is refused");
+	V_ASSERT(s == LS && n == LN && v == LV, "C01: decode_entry returns the three lengths the header encodes (every 32-bit value)");
+	V_ASSERT(q == buf + h, "C01: decode_entry returns the position right after the header");
+	free(buf);
+	V_WITNESS();
+}
+
+V_MAIN(V_E(h_block_roundtrip), V_E(h_block_seek), V_E(h_builder_init), V_E(h_decode_entry))
